@@ -8,6 +8,7 @@ import Autog.Lemmas.LongestPathTotal
 import Autog.Lemmas.DfsBreakerTotal
 import Autog.Lemmas.ComponentsTotal
 import Autog.Lemmas.TightTreeFuel
+import Autog.Lemmas.InitDfsFuel
 /-! # C01 — Layout always returns
 
     PARTIAL. In the composed model `layoutModel` (Autog/Model/Pipeline.lean) every explicit `panic` of the modelled code, every
@@ -31,11 +32,14 @@ import Autog.Lemmas.TightTreeFuel
       in every round of `feasibleTree`, and the lim/low numbering run after every pivot — are edge-marking walks like the component
       walk and return, by the same measure, on every state whose incidence lists stay inside the edge store, within the model's
       budget (E + 2)(2E + 2) + 2V + 4;
+    * `C01_init_positions_total`: the DFS initialisation of the ordering phase (run from the top and from the bottom in every call with
+      more than one layer) returns on ANY state whose continuation lists stay inside the node store and are together no longer than
+      the edge store — a node is expanded at most once (`C01_init_walk_never_out_of_fuel`);
     * on the machines the models run: the cycle test is complete (`C01_hasCycles_complete`), the greedy breaker ranks every node
       exactly once for every pick oracle (`C01_greedy_assigns_every_node_once`), Kahn initialisation processes every node of a DAG
       (`C01_ns_init_processes_every_node`), the component DFS closes (`C01_components_closed_connected`).
-    NOT proved (observed under watchdogs on the whole option grid): fuel sufficiency of the machines, termination of WMedian's
-    transposes, Brandes–Köpf, SinkColoring's fixpoint, the simplex pivots; Splines routing is a known finding. -/
+    NOT proved (observed under watchdogs on the whole option grid): fuel sufficiency of the remaining loops (pivots are bounded by
+    construction), termination of WMedian's transposes, Brandes–Köpf, SinkColoring's fixpoint, the simplex pivots; Splines routing is a known finding. -/
 
 namespace Autog
 
@@ -104,6 +108,9 @@ example : ∃ cs, preProcess {} [("a", "b"), ("b", "a"), ("c", "c"), ("a", "b")]
 theorem C01_tight_tree_total : type_of% @tightTree_total := @tightTree_total
 theorem C01_tree_numbering_total : type_of% @setStreeValues_total := @setStreeValues_total
 theorem C01_tight_tree_never_out_of_fuel : type_of% @tightTreeRun_total := @tightTreeRun_total
+
+theorem C01_init_positions_total : type_of% @TreeInitDfs.initPositions_total := @TreeInitDfs.initPositions_total
+theorem C01_init_walk_never_out_of_fuel : type_of% @TreeInitDfs.initDfs_total := @TreeInitDfs.initDfs_total
 
 theorem C01_cycle_test_total : type_of% @hasCycles_total := @hasCycles_total
 /-- the longest-path traversal returns on every well-formed acyclic state -/
